@@ -1,0 +1,21 @@
+//! Verification hooks. Compiled only with `--cfg anoncreds_verif`; with the flag off
+//! this module does not exist and the crate is unchanged.
+//!
+//! Thin, decision-free wrappers that expose crate-private functions to the external
+//! verification harness.
+
+use crate::data_types::credential::CredentialValues;
+use crate::data_types::w3c::credential_attributes::CredentialSubject;
+
+pub use crate::services::helpers::{
+    attr_common_view, encode_credential_attribute, get_non_revoked_interval,
+    get_requested_non_revoked_interval,
+};
+
+pub fn normalize_encoded_attr(attr: &str) -> String {
+    crate::services::verifier::verif_normalize_encoded_attr(attr)
+}
+
+pub fn subject_encode(subject: &CredentialSubject) -> crate::Result<CredentialValues> {
+    subject.encode()
+}
